@@ -15,7 +15,8 @@ from .geom import rot_index
 
 META = dict(
     bounds=dict(
-        quick=dict(angles="3-d meshes (2,2,1), (3,1,2), every direction, rad/deg", continuous_charge="2-d meshes 3x3 (free vectors), invariances at every cell",
+        quick=dict(also="integer-typed corners in neighbouring-cell angles; absolute charge against the integral of |density| (native); tensor after an in-place rescaling of the same mesh (native)",
+                   angles="3-d meshes (2,2,1), (3,1,2), every direction, rad/deg", continuous_charge="2-d meshes 3x3 (free vectors), invariances at every cell",
                    berg_luescher="2-d meshes (2,2), (3,2) with symbolic validity bits; triangle angle uninterpreted", rotations="concrete rational proper rotations (3-4-5, 5-12-13, quarter turns, products)",
                    native="coarse skyrmions, hedgehogs, antiparallel neighbours, demagnetisation sum rule for cubic and anisotropic cells"),
         thorough=dict(angles="as quick plus (2,3,2)", continuous_charge="3x3 and 4x3", berg_luescher="(2,2), (3,2), (3,3)", rotations="as quick", native="as quick, more sizes"),
